@@ -367,7 +367,8 @@ def _ids(rs):
          props=['C19'],
          clauses=['watched_are_selected_and_suitable', 'every_suitable_unambiguous_selection_watched', 'ambiguous_not_served',
                   'ambiguous_not_served.overlapping', 'nonwatchable_not_served', 'nonpatchable_not_served_when_patching',
-                  'ambiguous_not_served.after_group_rescan', 'served_objects_are_fresh',
+                  'ambiguous_not_served.after_group_rescan', 'every_suitable_unambiguous_selection_watched.after_group_rescan',
+                  'served_objects_are_fresh',
                   'readonly_served_for_readonly_handlers', 'webhook_and_indexed_sets', 'other_groups_untouched',
                   'warnings_not_crashes', 'disable_ambiguous.alone', 'disable_unsuitable.alone', 'disable_mismatched.alone',
                   'select_matches_reference'],
@@ -390,6 +391,9 @@ def O7(b):
         (spawning/changing) selector selects it, and stays watched if only read-only (event/index) handlers exist;
       * webhook / indexed sets are exactly the selected resources; resources of groups outside the rescan are untouched;
       * a selector matching nothing or ambiguously yields a WARNING, never an exception.
+    Known findings: F-C19-4 (two ambiguous selectors with overlapping candidates: the second one is judged on what the
+    first one left over) and F-C19-5 (a group-limited re-scan has forgotten the other group's candidate that an earlier
+    revision disabled: the ambiguous selector is served / the no longer ambiguous one is not).
     """
     import logging
     from kopf._core.reactor import observation
@@ -463,22 +467,33 @@ def O7(b):
                 b.check('nonpatchable_not_served_when_patching', not (W & must_patch), w)
                 if not must_patch:
                     b.check('readonly_served_for_readonly_handlers', (nonpatchable - amb_union) <= W, w)
-                b.check('every_suitable_unambiguous_selection_watched',
-                        (selected - amb_union - nonwatchable - nonpatchable) <= W, w)
-                if overlapping:
-                    b.check('ambiguous_not_served.overlapping', not (W & amb_union), w, excuse='F-C19-4')
-                elif rescan:
-                    b.check('ambiguous_not_served.after_group_rescan', not (W & amb_union), w, excuse='F-C19-5')
+                expected = selected - amb_union - nonwatchable - nonpatchable
+                if not rescan:
+                    b.check('every_suitable_unambiguous_selection_watched', expected <= W, w)
+                    if overlapping:
+                        b.check('ambiguous_not_served.overlapping', not (W & amb_union), w, excuse='F-C19-4')
+                    else:
+                        b.check('ambiguous_not_served', not (W & amb_union), w)
                 else:
-                    b.check('ambiguous_not_served', not (W & amb_union), w)
+                    scope, before = untouched
+                    # F-C19-5: resources of OTHER groups that an earlier revision has disabled (as ambiguous) are forgotten
+                    forgotten = {r for r in cluster if r.group != scope and r not in before}
+                    missing = expected - W
+                    b.check('every_suitable_unambiguous_selection_watched', not (missing - forgotten), w)
+                    b.check('every_suitable_unambiguous_selection_watched.after_group_rescan', not (missing & forgotten), w,
+                            excuse='F-C19-5')
+                    by_forgotten = set().union(set(), *[c for c in ambiguous.values() if c & forgotten])
+                    if overlapping:
+                        b.check('ambiguous_not_served.overlapping', not (W & (amb_union - by_forgotten)), w, excuse='F-C19-4')
+                    else:
+                        b.check('ambiguous_not_served', not (W & (amb_union - by_forgotten)), w)
+                    b.check('ambiguous_not_served.after_group_rescan', not (W & by_forgotten), w, excuse='F-C19-5')
+                    b.check('other_groups_untouched', all(any(r is p for p in before) for r in W if r.group != scope)
+                            and ({r for r in before if r.group != scope} - W) <= amb_union, w)
+                    b.check('served_objects_are_fresh', all(any(r is c for c in cluster) for r in W), w)
                 b.check('webhook_and_indexed_sets',
                         insights.webhook_resources == set().union(set(), *[_ref_select(s, cluster) for s in wh])
                         and insights.indexed_resources == set().union(set(), *[_ref_select(s, cluster) for s in ix]), w)
-                if rescan:
-                    scope, before = untouched
-                    b.check('other_groups_untouched', all(any(r is p for p in before) for r in W if r.group != scope)
-                            and {r for r in W if r.group != scope} == {r for r in before if r.group != scope}, w)
-                    b.check('served_objects_are_fresh', all(any(r is c for c in cluster) for r in W), w)
                 return ambiguous, nonwatchable
 
             def fresh(r):
